@@ -62,7 +62,7 @@ def culprit_of(ex) -> str:
     return type(cause).__name__ if cause is not None else "unknown"
 
 
-def classify(ctx, pydsdl, fn, main_path, allowed_paths, what, case):
+def classify(ctx, pydsdl, fn, main_path, allowed_paths, what, case, referrer=None):
     """Runs fn() at the API boundary and classifies the outcome. Returns the class string."""
     ctx.mon("outcome")
     try:
@@ -78,6 +78,11 @@ def classify(ctx, pydsdl, fn, main_path, allowed_paths, what, case):
             rp = type(main_path)(p).resolve()
         except Exception:  # noqa
             rp = p
+        if main_path is not None and rp != main_path and referrer is not None and rp == referrer[0] and referrer[1]():
+            # the offered text is a valid definition on its own (a service, a deprecated type, ...) that the valid referring
+            # definition cannot use: the fault then genuinely lies in the referrer
+            ctx.mon("outcome-error-with-path")
+            return "error-in-referrer:" + type(ex).__name__
         if main_path is not None and rp != main_path:
             if not (type(ex).__name__ == "DataTypeNameCollisionError" and rp in allowed_paths):
                 ctx.violation("C13/error-path-wrong", "%s: %s names %s, offending file is %s" % (what, type(ex).__name__, p, main_path), case)
@@ -109,23 +114,41 @@ def make_seed(rng):
     return deps, text
 
 
-def run_text(ctx, pydsdl, deps, text, kind, workdir, api):
+def run_text(ctx, pydsdl, deps, text, kind, workdir, api, as_dependency=False):
     base = workdir / "c13"
     shutil.rmtree(base, ignore_errors=True)
     GT.write_universe(deps, base)
     root = base / GT.ROOT
     root.mkdir(parents=True, exist_ok=True)
     (root / "Svc.1.0.dsdl").write_text("uint8 a\n@sealed\n---\nuint8 b\n@extent 64\n")  # a service that mutants may refer to
-    main = root / "Main.1.0.dsdl"
+    if as_dependency:
+        # the offered text is a definition that is first reached as a dependency of a valid definition sorting before it
+        main = root / "Zmain.1.0.dsdl"
+        (root / "Auser.1.0.dsdl").write_text("uint8 before\n%s.Zmain.1.0 dep\n@extent 80000\n" % GT.ROOT)
+        text = text.replace(GT.ROOT + ".Main.1.0", GT.ROOT + ".Zmain.1.0")
+    else:
+        main = root / "Main.1.0.dsdl"
     main.write_bytes(text.encode("utf-8"))
-    case = {"deps": deps, "text": text, "kind": kind, "api": api}
+    case = {"deps": deps, "text": text, "kind": kind, "api": api, "as_dependency": as_dependency}
     allowed = {(base / GT.def_path(d)).resolve() for d in deps}
     try:
-        if api == "read_files":
+        if as_dependency and api == "read_files":
+            fn = lambda: pydsdl.read_files([root / "Auser.1.0.dsdl"], [root])  # noqa
+        elif api == "read_files":
             fn = lambda: pydsdl.read_files([main], [root])  # noqa
         else:
             fn = lambda: pydsdl.read_namespace(root, [])  # noqa
-        return classify(ctx, pydsdl, fn, main.resolve(), allowed, kind, case)
+        referrer = None
+        if as_dependency:
+            def valid_alone():
+                try:
+                    pydsdl.read_files([main], [root])
+                    return True
+                except Exception:  # noqa
+                    return False
+
+            referrer = ((root / "Auser.1.0.dsdl").resolve(), valid_alone)
+        return classify(ctx, pydsdl, fn, main.resolve(), allowed, kind, case, referrer)
     finally:
         shutil.rmtree(base, ignore_errors=True)
 
@@ -181,14 +204,15 @@ def run_shard(ctx):
         api = "read_files" if rng.random() < 0.2 else "read_namespace"
         for m in always_on:
             m.bind(ctx, {"text": text, "kind": kind, "deps": deps})
+        as_dep = rng.random() < 0.3
         try:
             with ctx.watchdog(25):
-                out = run_text(ctx, pydsdl, deps, text, kind, ctx.tmp, api)
+                out = run_text(ctx, pydsdl, deps, text, kind, ctx.tmp, api, as_dep)
         except CaseTimeout:
             ctx.inconclusive_case("watchdog", {"text": text})
             out = "timeout"
         nontrivial = text != seed_text and text.strip() != ""
-        ctx.case(hashlib.sha1(text.encode()).hexdigest(), nontrivial, classes=["kind-" + kind, "outcome-" + out.split(":")[0]] +
+        ctx.case(hashlib.sha1(text.encode()).hexdigest() + str(as_dep), nontrivial, classes=["kind-" + kind, "outcome-" + out.split(":")[0], "as-dependency" if as_dep else "as-target"] +
                  (["err-" + out.split(":")[1]] if out.startswith("error:") else []),
                  sample={"kind": kind, "text": text[:300], "outcome": out} if i <= 3 else None)
     # hostile file names
@@ -230,7 +254,7 @@ def replay(ctx, case):
 
     pydsdl = import_pydsdl()
     if "text" in case:
-        print(run_text(ctx, pydsdl, fix_universe(case["deps"]), case["text"], case["kind"], ctx.tmp, case.get("api", "read_namespace")))
+        print(run_text(ctx, pydsdl, fix_universe(case["deps"]), case["text"], case["kind"], ctx.tmp, case.get("api", "read_namespace"), case.get("as_dependency", False)))
     else:
         base = ctx.tmp / "c13n"
         root = base / "nsroot"
